@@ -56,6 +56,7 @@ type ModelVar struct {
 
 type VC struct {
 	Mode      string // "bv", "int", "real"
+	OpaqueMul bool   // see FuncContract.OpaqueMul
 	FuncName  string
 	sorts     map[string]*Sort
 	sortDecls []string
@@ -775,4 +776,15 @@ func sortNamesSorted(m map[string]*Sort) []string {
 	}
 	sort.Strings(ks)
 	return ks
+}
+
+// mulT: product of two terms; in opaque mode a product of two non-constant integers is the uninterpreted tm(a, b).
+func (vc *VC) mulT(a, b Term) Term {
+	if a.K != nil && b.K != nil {
+		return IntLit(new(big.Int).Mul(a.K, b.K), a.Sort)
+	}
+	if vc.OpaqueMul && a.Sort.Kind == KInt && b.Sort.Kind == KInt && a.K == nil && b.K == nil {
+		return App(SInt, "tm", a, b)
+	}
+	return App(a.Sort, "*", a, b)
 }
